@@ -158,6 +158,24 @@ fn p_opt_res() {
     kani::cover!(which == 0 && !some && ov == 1, "None in, Some out");
     kani::cover!(which == 2 && !some && ov == 0, "Err in, Ok out");
 }
+//@ prefix=p_int kind=property clause=integer-coded results: Ok payload and every non-zero OS error code (incl. negative) return unchanged
+#[kani::proof]
+fn p_int_result() {
+    let mut rec = rec0();
+    let (ov, op, wv) = (rec.out_variant, rec.out_payload, rec.wval);
+    kani::assume(wv as i32 != 0);
+    let v: u32 = kani::any();
+    let obj = trait_obj!(imp(&mut rec) as Shapes);
+    let r = obj.int_res(v);
+    core::mem::forget(obj);
+    assert!(rec.calls == 1 && rec.tag == 22 && rec.payload == v as u64, "C02 argument of an integer-result method arrives unchanged");
+    match r {
+        Ok(x) => assert!(ov == 0 && x == op as u32, "C02 Ok payload of an integer-coded result returns unchanged"),
+        Err(e) => assert!(ov == 1 && e.raw_os_error() == Some(wv as i32), "C02 error code of an integer-coded result returns unchanged"),
+    }
+    kani::cover!(ov == 1 && (wv as i32) < 0, "negative error code");
+    kani::cover!(ov == 0, "ok");
+}
 //@ prefix=p_val kind=property clause=impl Into<T>, by-value C struct, extreme integers: values arrive and return unchanged
 #[kani::proof]
 fn p_val_shapes() {
